@@ -34,7 +34,7 @@ ASSUMPTIONS = [
 def budget(tier):
     if tier == "quick":
         return dict(examples=30, shards=16, shrink_calls=40)
-    return dict(examples=700, shards=16, shrink_calls=1500)
+    return dict(examples=250, shards=16, shrink_calls=1500)
 
 
 @st.composite
